@@ -106,6 +106,13 @@ func useTools(c *runner.Ctx, kind string, idx int) bool {
 const toolWallTimeout = 30 * time.Second
 const toolCPUBudget = 6 * time.Second
 
+// toolShortTimeout: once a hang of a tool has been reported in this run, its
+// later runs are killed after 1.5 s (a normal run takes milliseconds, the
+// longest of a whole quick run 0.2 s CPU); a run killed there with more than
+// half of that as CPU time is a presumed repeat (counted, not reported). After
+// toolSuspendAfter presumed repeats in a worker the tool is not run any more.
+const toolShortTimeout = 1500 * time.Millisecond
+
 type toolRun struct {
 	tool string
 	args []string
@@ -208,7 +215,17 @@ func runMP4Tools(c *runner.Ctx, file []byte, codec, desc string, tags []string) 
 func (x *toolCtx) oneTool(tr toolRun) {
 	c := x.c
 	name := filepath.Base(tr.tool)
-	ctx, cancel := context.WithTimeout(context.Background(), toolWallTimeout)
+	loadSharedKnown()
+	if toolSuspended[name] {
+		c.Count("tool_runs_skipped(tool suspended behind a reported hang)", 1)
+		return
+	}
+	timeout := toolWallTimeout
+	short := toolHangs[name] > 0 && c.Idx >= 0
+	if short {
+		timeout = toolShortTimeout
+	}
+	ctx, cancel := context.WithTimeout(context.Background(), timeout)
 	defer cancel()
 	cmd := exec.CommandContext(ctx, tr.tool, tr.args...)
 	var stderr bytes.Buffer
@@ -251,7 +268,17 @@ func (x *toolCtx) oneTool(tr toolRun) {
 	se := stderr.String()
 	w := &witness{Op: "tool:" + name + " " + strings.Join(tr.args, " "), Input: hexs(x.in), Case: x.desc, Mode: x.mode}
 	if ctx.Err() != nil {
-		if cpu > toolCPUBudget {
+		if short && cpu > toolShortTimeout/2 {
+			c.Count("presumed_repeats_of_tool_hang(killed at 1.5 s after a reported hang of the tool, not reported)", 1)
+			toolPresumed[name]++
+			if toolPresumed[name] >= toolSuspendAfter {
+				toolSuspended[name] = true
+				shareKnown("toolsuspend\t" + name)
+				c.Seen("tool_suspended_behind_reported_hang", name)
+			}
+		} else if cpu > toolCPUBudget {
+			toolHangs[name]++
+			shareKnown("toolhang\t" + name)
 			c.Violation("tool/"+name+"/hang/cpu", fmt.Sprintf("%s used %.1f s CPU on %d input bytes and was killed (case %s)", name, cpu.Seconds(), len(x.in), x.desc), w)
 		} else {
 			c.Inconclusive("tool wall-clock timeout with little CPU used")
@@ -289,6 +316,8 @@ func (x *toolCtx) oneTool(tr toolRun) {
 	crashed := code == 2 || code < 0 || strings.Contains(se, "panic:") || strings.Contains(se, "goroutine ") || strings.Contains(se, "fatal error:")
 	if !crashed {
 		if cpu > toolCPUBudget {
+			toolHangs[name]++
+			shareKnown("toolhang\t" + name)
 			c.Violation("tool/"+name+"/hang/cpu", fmt.Sprintf("%s used %.1f s CPU on %d input bytes (case %s)", name, cpu.Seconds(), len(x.in), x.desc), w)
 		}
 		if bound := int64(toolRSSBase + allocPerLen*len(x.in)); rss*1024 > bound {
